@@ -415,7 +415,25 @@ fn walk(s: &mut Box<dyn Server>) -> Result<Vec<(Uuid, Uuid, Vec<u8>)>, Failure> 
 pub fn check_point(pt: &Point) -> CheckResult {
     let mut rep = CaseReport::default();
     let scn = &pt.scn;
-    let (mut run, out) = run_until_fault(scn, Some((pt.index, pt.kind.clone())))?;
+    let (mut run, mut out) = run_until_fault(scn, Some((pt.index, pt.kind.clone())))?;
+    // A replay file written on an older tree names its step by index and by name; when the
+    // tree has gained or lost steps since, the name decides (failpoint backends only: their step
+    // names are fixed strings).
+    let mut pt = pt.clone();
+    let failpoints = scn.backend != Backend::ObjectStore;
+    if failpoints && out.fired && out.steps.get(pt.index).map(|s| *s != pt.step).unwrap_or(false) {
+        let steps = count_steps(scn)?;
+        let best = steps.iter().enumerate().filter(|(_, s)| **s == pt.step).min_by_key(|(i, _)| i.abs_diff(pt.index)).map(|(i, _)| i);
+        if let Some(best) = best {
+            pt.index = best;
+            pt.total_steps = steps.len();
+            let again = run_until_fault(scn, Some((pt.index, pt.kind.clone())))?;
+            run = again.0;
+            out = again.1;
+            rep.class("replayed-step-found-by-name");
+        }
+    }
+    let pt = &pt;
     // A finding is identified by its call site: backend, internal step, fault kind.  What the
     // oracles observe afterwards is in the message.
     let sig = |_what: &str| format!("{:?}:{}:{:?}{}", scn.backend, pt.step, pt.kind, if pt.restart { "" } else { ":no-restart" });
